@@ -16,6 +16,7 @@ import (
 //     not determined by the path);
 //   - boolean temporaries (phis fed by short-circuit evaluation) take the value
 //     of the edge the path came in by.
+//
 // The rule supplies the per-path state through three callbacks; states are
 // treated as immutable values (callbacks return a new state).
 type pathExplorer struct {
@@ -26,6 +27,71 @@ type pathExplorer struct {
 	// onInline: the path enters helper h through call (lets the state bind h's parameters)
 	onInline func(st any, call *ssa.Call, h *ssa.Function) any
 	budget   int
+	// anywhere: a call of an inlinable helper is entered wherever it stands (not only as the
+	// returned value or as a condition); the path continues after the call once per path of the
+	// helper, with the call's value bound to what that path returns
+	anywhere bool
+}
+
+// valEnv binds values to what they are known to be on the current path: the
+// result of an inlined call to the value its path returned, a parameter of an
+// inlined helper to the argument it was given.
+type valEnv map[ssa.Value]ssa.Value
+
+func (e valEnv) bind(k, v ssa.Value) valEnv {
+	out := make(valEnv, len(e)+1)
+	for a, b := range e {
+		out[a] = b
+	}
+	out[k] = v
+	return out
+}
+
+func (e valEnv) get(v ssa.Value) ssa.Value {
+	for i := 0; i < 16; i++ {
+		w, ok := e[v]
+		if !ok {
+			break
+		}
+		v = w
+	}
+	return v
+}
+
+// definitelyNonNil: v is a freshly built error or object.
+func definitelyNonNil(v ssa.Value) bool {
+	switch x := v.(type) {
+	case *ssa.MakeInterface, *ssa.Alloc, *ssa.MakeClosure, *ssa.MakeMap, *ssa.MakeSlice, *ssa.MakeChan:
+		return true
+	case *ssa.Call:
+		if f := x.Call.StaticCallee(); f != nil && f.Pkg != nil {
+			switch f.Pkg.Pkg.Path() + "." + f.Name() {
+			case "fmt.Errorf", "errors.New":
+				return true
+			}
+		}
+	}
+	return false
+}
+
+// staticCompare decides x == y when both are known on the path.
+func staticCompare(x, y ssa.Value) (equal, known bool) {
+	kx, okx := x.(*ssa.Const)
+	ky, oky := y.(*ssa.Const)
+	switch {
+	case okx && oky:
+		if kx.Value == nil || ky.Value == nil {
+			return kx.Value == nil && ky.Value == nil, true
+		}
+		if kx.Value.Kind() == ky.Value.Kind() {
+			return kx.Value.ExactString() == ky.Value.ExactString(), true
+		}
+	case oky && ky.Value == nil && definitelyNonNil(x):
+		return false, true
+	case okx && kx.Value == nil && definitelyNonNil(y):
+		return false, true
+	}
+	return false, false
 }
 
 type phiEnv map[*ssa.Phi]ssa.Value
@@ -80,39 +146,110 @@ func (e phiEnv) resolve(v ssa.Value) (ssa.Value, bool) {
 // run explores fn from its entry; onReturn is called once per path with the
 // state and the (resolved) returned values of the outermost function.
 func (e *pathExplorer) run(fn *ssa.Function, st any, onReturn func(st any, results []ssa.Value)) {
-	e.walk(fn.Blocks[0], nil, st, phiEnv{}, map[*ssa.BasicBlock]bool{}, 0, onReturn)
+	e.walk(fn.Blocks[0], 0, nil, st, phiEnv{}, valEnv{}, map[*ssa.BasicBlock]bool{}, 0, onReturn)
 }
 
-func (e *pathExplorer) walk(b, pred *ssa.BasicBlock, st any, env phiEnv, on map[*ssa.BasicBlock]bool, depth int, onReturn func(any, []ssa.Value)) {
-	if e.budget <= 0 || on[b] {
+func (e *pathExplorer) inlinable(call *ssa.Call, depth int) *ssa.Function {
+	if depth >= 3 || e.inline == nil || call.Call.IsInvoke() {
+		return nil
+	}
+	h := call.Call.StaticCallee()
+	if h == nil || h.Blocks == nil || !e.inline(h) {
+		return nil
+	}
+	return h
+}
+
+// enter walks helper h for call; k continues the caller once per path of h with the call's
+// value(s) bound.
+func (e *pathExplorer) enter(call *ssa.Call, h *ssa.Function, st any, vals valEnv, depth int, k func(st any, vals valEnv, res []ssa.Value)) {
+	if e.onInline != nil {
+		st = e.onInline(st, call, h)
+	}
+	in := vals
+	for i, prm := range h.Params {
+		if i < len(call.Call.Args) {
+			in = in.bind(prm, vals.get(call.Call.Args[i]))
+		}
+	}
+	e.walk(h.Blocks[0], 0, nil, st, phiEnv{}, in, map[*ssa.BasicBlock]bool{}, depth+1, func(st2 any, res []ssa.Value) {
+		out := vals
+		if len(res) == 1 {
+			out = out.bind(call, res[0])
+		} else if len(res) > 1 && call.Referrers() != nil {
+			for _, rf := range *call.Referrers() {
+				if ex, ok := rf.(*ssa.Extract); ok && ex.Index < len(res) {
+					out = out.bind(ex, res[ex.Index])
+				}
+			}
+		}
+		k(st2, out, res)
+	})
+}
+
+func (e *pathExplorer) walk(b *ssa.BasicBlock, from int, pred *ssa.BasicBlock, st any, env phiEnv, vals valEnv, on map[*ssa.BasicBlock]bool, depth int, onReturn func(any, []ssa.Value)) {
+	if e.budget <= 0 {
 		return
 	}
-	e.budget--
-	on[b] = true
-	defer delete(on, b)
-	env = env.with(b, pred)
-	for _, in := range b.Instrs {
+	if from == 0 {
+		if on[b] {
+			return
+		}
+		e.budget--
+		on[b] = true
+		defer delete(on, b)
+		env = env.with(b, pred)
+	}
+	for i := from; i < len(b.Instrs); i++ {
+		in := b.Instrs[i]
+		if call, ok := in.(*ssa.Call); ok && e.anywhere {
+			if h := e.inlinable(call, depth); h != nil {
+				if e.onInstr != nil {
+					st = e.onInstr(st, in)
+				}
+				next := i + 1
+				e.enter(call, h, st, vals, depth, func(st2 any, vals2 valEnv, _ []ssa.Value) {
+					e.walk(b, next, pred, st2, env, vals2, on, depth, onReturn)
+				})
+				return
+			}
+		}
 		if e.onInstr != nil {
 			st = e.onInstr(st, in)
 		}
 	}
+	resolve := func(v ssa.Value) (ssa.Value, bool) {
+		neg := false
+		for i := 0; i < 8; i++ {
+			w, n := env.resolve(v)
+			if n {
+				neg = !neg
+			}
+			w2 := vals.get(w)
+			if w2 == v {
+				break
+			}
+			v = w2
+		}
+		return v, neg
+	}
 	switch last := b.Instrs[len(b.Instrs)-1].(type) {
 	case *ssa.Return:
 		// tail call into a helper: its returns are ours
-		if len(last.Results) == 1 && depth < 3 {
+		if len(last.Results) == 1 && !e.anywhere {
 			if call, ok := last.Results[0].(*ssa.Call); ok && call.Block() == b {
-				if h := call.Call.StaticCallee(); h != nil && h.Blocks != nil && e.inline != nil && e.inline(h) {
+				if h := e.inlinable(call, depth); h != nil {
 					if e.onInline != nil {
 						st = e.onInline(st, call, h)
 					}
-					e.walk(h.Blocks[0], nil, st, phiEnv{}, map[*ssa.BasicBlock]bool{}, depth+1, onReturn)
+					e.walk(h.Blocks[0], 0, nil, st, phiEnv{}, vals, map[*ssa.BasicBlock]bool{}, depth+1, onReturn)
 					return
 				}
 			}
 		}
 		var res []ssa.Value
 		for _, rv := range last.Results {
-			v, neg := env.resolve(rv)
+			v, neg := resolve(rv)
 			if neg {
 				v = rv // a negated value is not a plain value: hand the original on
 			}
@@ -120,25 +257,41 @@ func (e *pathExplorer) walk(b, pred *ssa.BasicBlock, st any, env phiEnv, on map[
 		}
 		onReturn(st, res)
 	case *ssa.If:
-		cond, neg := env.resolve(last.Cond)
+		cond, neg := resolve(last.Cond)
 		if k, isC := cond.(*ssa.Const); isC {
 			if v, isB := boolConst(k); isB {
 				taken := 0
 				if v == neg { // cond false after negation
 					taken = 1
 				}
-				e.walk(b.Succs[taken], b, st, env, on, depth, onReturn)
+				e.walk(b.Succs[taken], 0, b, st, env, vals, on, depth, onReturn)
 				return
 			}
 		}
-		if call, ok := cond.(*ssa.Call); ok && depth < 3 {
-			if h := call.Call.StaticCallee(); h != nil && h.Blocks != nil && e.inline != nil && e.inline(h) && h.Signature.Results().Len() == 1 {
+		// a comparison of values that the path determines (the result of an inlined helper with a constant)
+		if bo, ok := cond.(*ssa.BinOp); ok && (bo.Op == token.EQL || bo.Op == token.NEQ) && e.anywhere {
+			x, nx := resolve(bo.X)
+			y, ny := resolve(bo.Y)
+			if !nx && !ny {
+				if eq, known := staticCompare(x, y); known {
+					v := eq == (bo.Op == token.EQL)
+					taken := 0
+					if v == neg {
+						taken = 1
+					}
+					e.walk(b.Succs[taken], 0, b, st, env, vals, on, depth, onReturn)
+					return
+				}
+			}
+		}
+		if call, ok := cond.(*ssa.Call); ok && !e.anywhere {
+			if h := e.inlinable(call, depth); h != nil && h.Signature.Results().Len() == 1 {
 				// continue inside the helper; come back on the edge its result selects
 				stIn := st
 				if e.onInline != nil {
 					stIn = e.onInline(st, call, h)
 				}
-				e.walk(h.Blocks[0], nil, stIn, phiEnv{}, map[*ssa.BasicBlock]bool{}, depth+1, func(st2 any, res []ssa.Value) {
+				e.walk(h.Blocks[0], 0, nil, stIn, phiEnv{}, vals, map[*ssa.BasicBlock]bool{}, depth+1, func(st2 any, res []ssa.Value) {
 					if len(res) == 1 {
 						if k, isC := res[0].(*ssa.Const); isC {
 							if v, isB := boolConst(k); isB {
@@ -146,7 +299,7 @@ func (e *pathExplorer) walk(b, pred *ssa.BasicBlock, st any, env phiEnv, on map[
 								if v == neg {
 									taken = 1
 								}
-								e.walk(b.Succs[taken], b, st2, env, on, depth, onReturn)
+								e.walk(b.Succs[taken], 0, b, st2, env, vals, on, depth, onReturn)
 								return
 							}
 						}
@@ -158,13 +311,13 @@ func (e *pathExplorer) walk(b, pred *ssa.BasicBlock, st any, env phiEnv, on map[
 								st3, ok = e.onCond(st2, res[0], pol)
 							}
 							if ok {
-								e.walk(sc, b, st3, env, on, depth, onReturn)
+								e.walk(sc, 0, b, st3, env, vals, on, depth, onReturn)
 							}
 						}
 						return
 					}
 					for _, sc := range b.Succs {
-						e.walk(sc, b, st2, env, on, depth, onReturn)
+						e.walk(sc, 0, b, st2, env, vals, on, depth, onReturn)
 					}
 				})
 				return
@@ -177,12 +330,12 @@ func (e *pathExplorer) walk(b, pred *ssa.BasicBlock, st any, env phiEnv, on map[
 				st2, ok = e.onCond(st, cond, pol)
 			}
 			if ok {
-				e.walk(sc, b, st2, env, on, depth, onReturn)
+				e.walk(sc, 0, b, st2, env, vals, on, depth, onReturn)
 			}
 		}
 	default:
 		for _, sc := range b.Succs {
-			e.walk(sc, b, st, env, on, depth, onReturn)
+			e.walk(sc, 0, b, st, env, vals, on, depth, onReturn)
 		}
 	}
 }
